@@ -61,6 +61,7 @@ type Stream struct {
 	Shard int
 	Rows  []Row
 	Calls int
+	Sizes []int  // rows per call (WriterFunc observers)
 	Ends  int    // number of calls that carried an end-of-stream or error
 	End   string // "EOF" or the error text of the last such call
 	After int    // calls after the first end
@@ -131,6 +132,7 @@ func (e *Env) StreamsOf(node int) []*Stream {
 	for i, s := range e.Streams[node] {
 		c := *s
 		c.Rows = append([]Row{}, s.Rows...)
+		c.Sizes = append([]int{}, s.Sizes...)
 		out[i] = &c
 	}
 	return out
@@ -565,6 +567,7 @@ func buildNode(env *Env, spec *Spec, id int, slices []bigslice.Slice, args []big
 			env.mu.Lock()
 			s := st.s
 			s.Calls++
+			s.Sizes = append(s.Sizes, k)
 			if s.Ends > 0 {
 				s.After++
 			}
@@ -643,11 +646,11 @@ func buildNode(env *Env, spec *Spec, id int, slices []bigslice.Slice, args []big
 			return err
 		})
 	case "cache":
-		return bigslice.Cache(context.Background(), in(0), n.CachePrefix)
+		return bigslice.Cache(context.Background(), in(0), spec.CacheBase+n.CachePrefix)
 	case "cachepartial":
-		return bigslice.CachePartial(context.Background(), in(0), n.CachePrefix)
+		return bigslice.CachePartial(context.Background(), in(0), spec.CacheBase+n.CachePrefix)
 	case "readcache":
-		return bigslice.ReadCache(context.Background(), in(0), spec.Nodes[n.In[0]].Shards, n.CachePrefix)
+		return bigslice.ReadCache(context.Background(), in(0), spec.Nodes[n.In[0]].Shards, spec.CacheBase+n.CachePrefix)
 	}
 	panic("progen: unknown op " + n.Op)
 }
